@@ -1451,6 +1451,163 @@ def scp_strategy(tier: str):
     return build()
 
 
+# --------------------------------------------------------- pending-open ---
+
+PO_ENDS = ['disconnect', 'cut', 'close-unconfirmed', 'garbage',
+           'second-open', 'none']
+PO_OUTCOMES = ['session', 'refuse', 'false', 'error']
+
+
+def run_pending_open(case) -> CaseResult:
+    """The server application answers a channel open with an awaitable (the
+    documented way to decide asynchronously, and what forwarding does while
+    it connects the destination).  While that is pending the peer ends or
+    disturbs the connection; the awaitable finishes afterwards.  Nothing
+    may escape to the loop, the owner gets one connection_lost, no task is
+    left."""
+
+    import asyncio
+    log: List[Any] = []
+    ref = RefPeer('client')
+    conn = RefConn(ref)
+    gates: List[Any] = []
+    kind = case['kind']
+
+    class Sess(asyncssh.SSHTCPSession):
+        def connection_made(self, chan):
+            log.append('sess-made')
+
+        def connection_lost(self, exc):
+            log.append('sess-lost')
+
+    class SSess(asyncssh.SSHServerSession):
+        def connection_made(self, chan):
+            log.append('sess-made')
+
+        def shell_requested(self):
+            return True
+
+        def connection_lost(self, exc):
+            log.append('sess-lost')
+
+    def decide(make):
+        fut = asyncio.get_event_loop().create_future()
+        gates.append(fut)
+
+        async def later():
+            await fut
+            out = case['outcome']
+            if out == 'session':
+                return make()
+            if out == 'refuse':
+                raise asyncssh.ChannelOpenError(2, 'refused late')
+            if out == 'error':
+                raise OSError('destination unreachable')
+            return False
+
+        return later()
+
+    class Server(SOwner):
+        def __init__(self):
+            SOwner.__init__(self, log)
+
+        def connection_requested(self, dest_host, dest_port, orig_host,
+                                 orig_port):
+            return decide(Sess)
+
+        def session_requested(self):
+            return decide(SSess)
+
+    link = RefLink(ref, {'server_factory': Server, 'encoding': None})
+    h = link.h
+    labels = {'kind:' + kind, 'end:' + case['end'],
+              'outcome:' + case['outcome']}
+
+    try:
+        link.start()
+        link.pump()
+        conn.request_service()
+        link.pump()
+        conn.auth_password('user', 'pw')
+        link.pump()
+
+        if kind == 'direct-tcpip':
+            extra = string(b'dest.example') + u32(80) + string(b'1.2.3.4') + \
+                u32(4000)
+            rch = conn.open_channel(b'direct-tcpip', extra)
+        else:
+            rch = conn.open_channel()
+
+        link.pump()
+
+        if not gates:
+            return CaseResult(['phase-not-reached'], False)
+
+        end = case['end']
+
+        if end == 'disconnect':
+            conn.disconnect()
+        elif end == 'cut':
+            h.cut_wire()
+        elif end == 'close-unconfirmed':
+            # CLOSE for a channel number the victim has not confirmed yet
+            ref.send(byte(97) + u32(0))
+        elif end == 'garbage':
+            ref.send(byte(94) + u32(0) + string(b'data before confirmation'))
+        elif end == 'second-open':
+            conn.open_channel(b'session')
+
+        link.pump()
+
+        for fut in gates:
+            if not fut.done():
+                h.call(fut.set_result, None)
+
+        link.pump()
+
+        if end in ('none', 'second-open') and not h.wire.closed['s']:
+            labels.add('connection-carries-on')
+            if case['outcome'] == 'session' and not rch.confirmed:
+                raise Violation('hung', 'the application accepted the open, '
+                                'no confirmation was sent', 'pending-open:'
+                                'not-confirmed')
+            if case['outcome'] != 'session' and rch.open_failed is None \
+                    and not h.wire.closed['s']:
+                raise Violation('hung', 'the application refused the open '
+                                '(%s), no failure was sent' % case['outcome'],
+                                'pending-open:not-refused')
+
+        h.cut_wire()
+        h.settle()
+        check_owner(log, h, 'pending-open')
+        alive = [t for t in asyncio.all_tasks(h.loop) if not t.done()]
+
+        if alive:
+            raise Violation('task-left', '%d tasks alive after the '
+                            'connection ended: %r' %
+                            (len(alive), [str(t.get_coro())[:80]
+                                          for t in alive[:3]]),
+                            'pending-open:task-left')
+
+        if log.count('sess-made') != log.count('sess-lost'):
+            raise Violation('session-leak', 'a session object got '
+                            'connection_made %d times and connection_lost '
+                            '%d times: %r' % (log.count('sess-made'),
+                                              log.count('sess-lost'), log),
+                            'pending-open:session-leak')
+
+        return CaseResult(sorted(labels), True)
+    finally:
+        link.close()
+
+
+def pending_open_cases(tier: str):
+    for kind in ('direct-tcpip', 'session'):
+        for end in PO_ENDS:
+            for outcome in PO_OUTCOMES:
+                yield {'kind': kind, 'end': end, 'outcome': outcome}
+
+
 FAMILIES = [
     Family('stream', run_stream, strategy=stream_strategy,
            budget={'quick': 3000, 'thorough': 40000},
@@ -1470,6 +1627,12 @@ FAMILIES = [
     Family('chanparams', run_chanparams, enumerate=chanparams_cases,
            exhaustive=True, required={'all': ['channel-established']},
            case_timeout=60, timeout_is_violation=True),
+    Family('pending-open', run_pending_open, enumerate=pending_open_cases,
+           exhaustive=True,
+           required={'all': ['connection-carries-on', 'end:disconnect',
+                             'end:cut', 'kind:direct-tcpip',
+                             'kind:session']},
+           case_timeout=20, timeout_is_violation=True),
     Family('scp', run_scp, strategy=scp_strategy,
            budget={'quick': 1600, 'thorough': 30000},
            required={'all': ['role:' + r for r in SCP_ROLES] +
